@@ -184,17 +184,17 @@ type sizeDims struct {
 func sizeDimsFor(tier string) sizeDims {
 	if tier == "thorough" {
 		return sizeDims{
-			strings:  sweepSizes(300, 512, 1024, 2048, 4096, 8192, 65536, 1<<20),
-			widths:   sweepSizes(140, 256, 512, 1024, 4096),
-			arrays:   sweepSizes(140, 256, 512, 1024, 4096),
+			strings:  sweepSizes(300, 500, 512, 1000, 1024, 2048, 4096, 8192, 10000, 65536, 100000, 1<<20),
+			widths:   sweepSizes(140, 200, 256, 500, 512, 1000, 1024, 4096),
+			arrays:   sweepSizes(140, 200, 256, 500, 512, 1000, 1024, 4096),
 			depths:   append(sweepSizes(140, 256, 512, 1000, 2048, 5000), 9990),
 			products: []int{16, 32, 64, 128, 256, 1024, 4096},
 		}
 	}
 	return sizeDims{
-		strings:  sweepSizes(130, 256, 512, 1024, 4096, 65536),
-		widths:   sweepSizes(70, 128, 256, 1024),
-		arrays:   sweepSizes(70, 128, 256, 1024),
+		strings:  sweepSizes(130, 200, 256, 500, 512, 1000, 1024, 4096, 10000, 65536),
+		widths:   sweepSizes(100, 128, 200, 256, 500, 1000, 1024),
+		arrays:   sweepSizes(100, 128, 200, 256, 500, 1000, 1024),
 		depths:   append(sweepSizes(70, 100, 128), 1000, 1001, 1002),
 		products: []int{64, 256},
 	}
@@ -275,6 +275,18 @@ func sizeClusters(tier string, noNull bool) (labels []string, clusters [][]*rj.V
 	return
 }
 
+// rareClusters: valid JSON that is rarely written - exponent and sign spellings of numbers, 60-digit
+// integers, empty / NUL / BOM-like / non-BMP member names and strings, nests of empty containers.
+func rareClusters() [][]*rj.Value {
+	big := strings.Repeat("9", 60)
+	return [][]*rj.Value{
+		parseAll([]string{`{"n":1E+2}`, `{"n":1e-0}`, `{"n":-0.0}`, `{"n":0e0}`, `{"n":1E+2,"m":1}`, `{"n":100}`, `{"n":` + big + `}`, `{"n":` + big[:59] + `8}`, `{"n":[1E+2,-0.0]}`, `{"n":[1E+2,-0]}`, `{"n":{"n":1e-0}}`}),
+		parseAll([]string{`{"":1}`, `{"":{"":1}}`, `{"":{"":2}}`, `{"":"","x":""}`, `{"x":""}`, `{"\ud83d\ude00":1}`, `{"\ud83d\ude00":2}`, `{"\ud83d\ude01":1}`, `{"\u0000":1}`, `{"\u0000x":1}`, `{"\ufeffx":1}`,
+			`{"x":"\ufeff"}`, `{"x":"\u0000"}`, `{"x":"\ufeffx","\ufeff":{"\u0000":[""]}}`}),
+		parseAll([]string{`{"e":[[[[[[]]]]]]}`, `{"e":[[[[[{}]]]]]}`, `{"e":{"":{"":{"":{}}}}}`, `{"e":{"":{"":{"":[]}}}}`, `{"e":[]}`, `{"e":{}}`, `{"e":[[],{}]}`, `{"e":[{},[]]}`, `{}`, `{"e":[[[[[[]]]]]],"f":{}}`}),
+	}
+}
+
 type sizeWhat struct {
 	merge, create, equal, compose bool
 }
@@ -282,6 +294,11 @@ type sizeWhat struct {
 // runSizeSweep: every ordered pair inside every cluster through the chosen functions.
 func runSizeSweep(ctx *core.Ctx, id string, legacy bool, tier string, what sizeWhat) {
 	labels, clusters := sizeClusters(tier, false)
+	if !legacy {
+		for i, c := range rareClusters() {
+			labels, clusters = append(labels, fmt.Sprintf("rare%d", i)), append(clusters, c)
+		}
+	}
 	ctx.Count("size_clusters", int64(len(clusters)))
 	timing := os.Getenv("VERIF_SIZE_TIMING") != ""
 	for i, c := range clusters {
@@ -306,14 +323,17 @@ func runSizeSweep(ctx *core.Ctx, id string, legacy bool, tier string, what sizeW
 			n := 0
 			fmt.Sscanf(strings.TrimLeft(l, "abcdefghijklmnopqrstuvwxyz"), "%d", &n)
 			near := false
-			pows := []int{32, 64, 128, 256}
+			pows := []int{32, 64, 100, 128, 256}
 			if tier == "thorough" {
-				pows = append(pows, 1024)
+				pows = append(pows, 200, 500, 1000, 1024)
 			}
 			for _, p := range pows {
 				if n >= p-1 && n <= p+2 {
 					near = true
 				}
+			}
+			if strings.HasPrefix(l, "rare") {
+				near = true
 			}
 			if !near || strings.HasPrefix(l, "array") || (strings.Contains(l, "@") && tier != "thorough") {
 				continue
